@@ -1,6 +1,7 @@
 /-
   C02 — Loading accepts exactly the well-formed boot informations.
 -/
+import Mb2.Props.FnsTblMbi
 import Mb2.Props.FnsLinked
 import Mb2.Props.FnsGetters
 import Mb2.Props.FnsBytesRef
